@@ -222,23 +222,28 @@ class Collection:
         only_in_other = set(other._fields.keys()) - set(self._fields.keys())
         only_in_self = set(self._fields.keys()) - set(other._fields.keys())
 
-        if len(self) == 0:
+        # Number of observations before extending. The length of a collection is the length of its first field,
+        # which changes while the fields are extended one by one.
+        num_obs_self = len(self)
+        num_obs_other = len(other)
+
+        if num_obs_self == 0:
             only_in_other = only_in_other | set(self._fields.keys())
 
-        if len(other) == 0:
+        if num_obs_other == 0:
             only_in_self = only_in_self | set(other._fields.keys())
 
         for field_name, field in other._fields.items():
 
             if field_name in only_in_other:
                 new_field = field.copy()
-                new_field.prepend_empty(len(self), memo)
+                new_field.prepend_empty(num_obs_self, memo)
                 self._fields[field_name] = new_field
             else:
                 self._fields[field_name].extend(other._fields[field_name], memo)
 
         for field_name in only_in_self:
-            self._fields[field_name].append_empty(len(other), memo)
+            self._fields[field_name].append_empty(num_obs_other, memo)
 
     def add_field(self, fieldname: str, field: "FieldType") -> None:
         """Update the _fields dictionary with a field"""
